@@ -108,14 +108,41 @@ func (r *Decoder) Next() bool {
 
 	TRIPLE_START:
 
-		subject, subjectRange, err := r.captureSubject()
-		if err != nil {
-			if errors.Is(err, io.EOF) {
-				r.currentTriple = rdf.Triple{}
+		// the input may only end cleanly in front of a statement
+		for {
+			r0, err := r.buf.NextRune()
+			if err != nil {
+				if errors.Is(err, io.EOF) {
+					r.currentTriple = rdf.Triple{}
 
-				return nil
+					return nil
+				}
+
+				return grammar.R_ntriplesDoc.Err(r.newOffsetError(err, cursorio.DecodedRunes{}, cursorio.DecodedRunes{}))
 			}
 
+			if r0.Rune == '#' {
+				err = r.drainLine(cursorio.DecodedRuneList{r0})
+				if err != nil {
+					if errors.Is(err, io.EOF) {
+						r.currentTriple = rdf.Triple{}
+
+						return nil
+					}
+
+					return grammar.R_ntriplesDoc.Err(r.newOffsetError(err, cursorio.DecodedRunes{}, cursorio.DecodedRunes{}))
+				}
+			} else if unicode.IsSpace(r0.Rune) {
+				r.commit(r0.AsDecodedRunes())
+			} else {
+				r.buf.BacktrackRunes(r0)
+
+				break
+			}
+		}
+
+		subject, subjectRange, err := r.captureSubject()
+		if err != nil {
 			return grammar.R_triple.Err(err)
 		}
 
